@@ -37,6 +37,10 @@ def main(argv=None) -> int:
         generated = mod.generate(ck) if hasattr(mod, "generate") else []
         if a.no_lean:
             st = core.ProofStatus()
+            # a debugging run must never overwrite the evidence of a real run (evidence without discharged obligations is
+            # not valid for the level claimed)
+            os.environ.setdefault("VERIF_EVIDENCE_DIR", str(core.VERIF / ".runlogs" / "no-lean-evidence"))
+            (core.VERIF / ".runlogs").mkdir(exist_ok=True)
         else:
             st = core.check_proofs(prop, list(getattr(mod, "REQUIRED_THEOREMS", [])), leanchecker=(a.tier == "thorough"))
         st.generated = generated
